@@ -116,7 +116,7 @@ pub fn c10(tier: &str, seed: u64) -> Vec<Case> {
             }
             continue;
         }
-        for _ in 0..reps {
+        for rep_no in 0..reps {
             g.share = 4;
             let rd = g.rdata(kind);
             let rd_text = text::rdata(&rd);
@@ -157,6 +157,25 @@ pub fn c10(tier: &str, seed: u64) -> Vec<Case> {
             let mut c = Case::new(format!("parse {}", text::hex(&enc)), out.clone()).tag(&tag).tag("decode-compressed");
             if out != format!("ok {}", two) { c = c.fail("layout-read-compressed", format!("{}: the RFC encoding with compressed names does not give the field values back", KIND_NAMES[kind])); }
             v.push(c);
+            // (2b) the same encoding with its RDATA cut short at every length, RDLENGTH saying so (a consistent, shorter
+            // record, followed by another record): the layout decides - a record that ends inside a fixed-width field
+            // is rejected, and nothing is read from the record that follows; no length makes the parser give up with a panic
+            if reference.len() > 25 && (rep_no < 3 || thorough && rep_no < 40) {
+                let full = reference.len() - 25;
+                let fixed_only = rd_text.starts_with("F ") && { let toks: Vec<&str> = rd_text.split(' ').collect(); let mut all_int = true; let mut k = 3; while k < toks.len() { if toks[k] != "i" { all_int = false; break; } k += 2; } all_int };
+                let cuts: Vec<usize> = if full <= 80 { (0..full).collect() } else { (0..40).map(|k| k * full / 40).chain([full - 1, full - 2]).collect() };
+                for l in cuts {
+                    let mut m = reference[..25 + l].to_vec();
+                    m[23] = (l >> 8) as u8; m[24] = l as u8;
+                    m[7] = 2;
+                    m.extend_from_slice(&[1, b'z', 0, 0, 1, 0, 1, 0, 0, 0, 3, 0, 4, 10, 9, 8, 7]);
+                    let out = parse_out(&m);
+                    let mut c = Case::new(format!("parse {}", text::hex(&m)), out.clone()).tag(&tag).tag("decode-cut");
+                    if out == "panic" { c = c.fail("layout-read", format!("{}: RDATA cut to {} of {} bytes (RDLENGTH consistent) makes the parser panic", KIND_NAMES[kind], l, full)); }
+                    else if fixed_only && l > 0 && class_of(&out) == "ok" { c = c.fail("layout-read", format!("{}: a record of {} bytes is accepted for a fixed layout of {} bytes", KIND_NAMES[kind], l, full)); }
+                    v.push(c);
+                }
+            }
             // (4) the compressing writer: RDATA of types outside RFC 1035/1183's compressible set must still be
             // the RFC encoding byte for byte, even when an earlier record offers suffixes to point to
             let first = ResourceRecord::new(g.name(), CLASS::IN, 1, RData::NS(NS(g.name())));
